@@ -78,6 +78,17 @@ theorem mapM_unBare_bare (vals : List Rat) : (vals.map Arg.bare).mapM unBare = (
     simp only [List.map_cons, List.mapM_cons, ih, unBare]
     rfl
 
+theorem any_isQty_bare (vals : List Rat) : (vals.map Arg.bare).any isQty = false := by
+  induction vals with
+  | nil => rfl
+  | cons v vs ih => simp [isQty, ih]
+
+/-- plain results of a unit-free transform pass through the values interface as they are -/
+theorem removeQuantityOutput_bare (us : List U) (vals : List Rat) :
+    removeQuantityOutput false us (vals.map Arg.bare) = .ok vals := by
+  simp only [removeQuantityOutput, any_isQty_bare, Bool.or_self, Bool.false_eq_true, if_false]
+  exact mapM_unBare_bare vals
+
 theorem scaleBy_length (src dst : List U) (vals : List Rat) (h1 : vals.length = src.length) (h2 : src.length = dst.length) :
     (scaleBy src dst vals).length = vals.length := by
   simp [scaleBy, List.length_zip]; omega
@@ -162,8 +173,8 @@ theorem values_agree (w : W) (hq : w.fwd.usesQ = true) (wf : w.fwd.WF w.pixU w.w
   have := Tr.eval_bare (w.fwd.twin w.pixU w.worldU) rfl pix
   simp only [Tr.twin] at this
   simp only [Bool.false_eq_true, ↓reduceIte, this]
-  show ((List.map Arg.bare _).mapM unBare) = _
-  rw [mapM_unBare_bare]
+  simp only [bind, Except.bind, any_isQty_bare, Bool.or_self, Bool.false_eq_true, if_false]
+  exact mapM_unBare_bare _
 
 /-- what `invert` does with quantities when the backward transform carries units: no stripping -/
 theorem invert_usesQ (w : W) (hq : w.bwd.usesQ = true) (args : List Arg) : w.invert args = w.bwd.eval args := by
@@ -190,8 +201,8 @@ theorem world_values_agree (w : W) (hq : w.bwd.usesQ = true) (wf : w.bwd.WF w.wo
     intro w' vs; unfold W.invert; cases vs <;> simp
   rw [hinv]
   simp only [hb]
-  show ((List.map Arg.bare _).mapM unBare) = _
-  rw [mapM_unBare_bare]
+  simp only [bind, Except.bind, any_isQty_bare, Bool.or_self, Bool.false_eq_true, if_false]
+  exact mapM_unBare_bare _
 
 theorem zipM_stripOrKeep_bare : ∀ (vals : List Rat) (us : List U), vals.length = us.length →
     zipM stripOrKeep (vals.map Arg.bare) us = .ok vals := by
@@ -216,8 +227,8 @@ theorem mixed_world_values (w : W) (hb : w.bwd.usesQ = false) (world : List Rat)
   have hinv : w.invert (world.map Arg.bare) = w.bwd.eval (world.map Arg.bare) := by
     unfold W.invert; cases world <;> simp
   simp only [W.worldToPixelValues, addUnitsInput, hb, Bool.false_eq_true, ↓reduceIte, hinv, Tr.eval_bare _ hb, removeQuantityOutput]
-  show ((List.map Arg.bare _).mapM unBare) = _
-  rw [mapM_unBare_bare]
+  simp only [bind, Except.bind, any_isQty_bare, Bool.or_self, Bool.false_eq_true, if_false]
+  exact mapM_unBare_bare _
 
 /-- **the other mix: a unit-free forward transform with a user-supplied unit-carrying inverse** - the values interface still returns
 bare numbers in the input frame's units, whatever the forward transform is (the strip follows the transform that produced the result) -/
@@ -392,8 +403,8 @@ theorem with_units_in_frame_units_twin (w : W) (hq : w.fwd.usesQ = false) (pix :
     w.pixelToWorldValues pix = .ok (w.fwd.f pix) ∧ w.pixelToWorld (pix.map Arg.bare) = .ok (qtys (w.fwd.f pix) w.worldU) := by
   constructor
   · simp only [W.pixelToWorldValues, addUnitsInput, hq, Bool.false_eq_true, ↓reduceIte, removeQuantityOutput, Tr.eval_bare _ hq]
-    show ((List.map Arg.bare _).mapM unBare) = _
-    rw [mapM_unBare_bare]
+    simp only [bind, Except.bind, any_isQty_bare, Bool.or_self, Bool.false_eq_true, if_false]
+    exact mapM_unBare_bare _
   · have hs : sanitizePixel false w.pixU (pix.map Arg.bare) = .ok (pix.map Arg.bare) := by
       simp only [sanitizePixel, Bool.false_eq_true, ↓reduceIte]
       clear hq
@@ -516,5 +527,22 @@ example :
     arrayIndexScaleOnly (1 / 2) mhz pix pix (.qty (403 / 4) mhz) = .ok 50 ∧
     arrayIndexScaleOnlyRaw (1 / 2) mhz pix (.qty 100750000 hz) = .ok 50375000 ∧
     arrayIndexScaleOnlyRaw (1 / 2) mhz pix (.qty (403 / 4) mhz) = .ok 50 := by decide +kernel
+
+end Gwcs.Units
+
+/-! ### plain numbers next to quantities in one result -/
+
+namespace Gwcs.Units
+
+/-- **mixed_outputs_converted.** As soon as one result is a quantity (a look-up table of quantities beside a unit-free shift), every
+quantity is converted to its axis's frame unit and every plain number is kept - whatever the transform says about its parameters. -/
+theorem mixed_outputs_converted (usesQ : Bool) (us : List U) (res : List Arg) (h : res.any isQty = true) :
+    removeQuantityOutput usesQ us res = zipM stripOrKeep res us := by
+  simp [removeQuantityOutput, h]
+
+/-- looking at the first result only is not enough: a plain slit position followed by a wavelength in nm, frame units (m, um) -/
+example :
+    let m : U := ⟨2, 1⟩; let um : U := ⟨2, 1 / 1000000⟩; let nm : U := ⟨2, 1 / 1000000000⟩
+    removeQuantityOutput false [m, um] [.bare (11 / 2), .qty 505 nm] = .ok [11 / 2, 101 / 200] := by decide +kernel
 
 end Gwcs.Units
